@@ -22,15 +22,33 @@ def race_reports(logdir):
             if "DATA RACE" not in rep:
                 continue
             frames = re.findall(r"^\s+(\S+)\(\)\n\s+(\S+):\d+", rep, re.M)
-            # the two accesses are the first frames after "... by goroutine N:" / "Previous ... by ...:"
-            tops = re.findall(r"(?:^|\n)(?:Read|Write|Previous read|Previous write) at [^\n]*\n\s+(\S+)\(\)\n\s+(\S+):\d+", rep)
-            in_lib = [fn for fn, path in tops if "/verif/harness" not in path]
-            (lib if in_lib else other).append({"report": rep[:5000], "frames": ["%s %s" % (fn, os.path.basename(p)) for fn, p in frames][:12]})
+            # Who made the two accesses: per access stack the first frame that is not the runtime's own
+            # (sync.WaitGroup's race annotations show up as a bare runtime.racewrite/raceread); a stack
+            # with nothing else is attributed to the place its goroutine was created at.
+            secs = re.split(r"\n\n", rep)
+            created = {}
+            for sec in secs:
+                m = re.match(r"\s*Goroutine (\d+) \([^)]*\) created at:", sec)
+                if m:
+                    created[m.group(1)] = re.findall(r"^\s+(\S+)\(\)\n\s+(\S+):\d+", sec, re.M)
+            owners = []
+            for sec in secs:
+                m = re.match(r"(?:WARNING: DATA RACE\n)?\s*(?:Read|Write|Previous read|Previous write|Atomic [a-z]+|Previous atomic [a-z]+) at \S+ by (?:goroutine (\d+)|main goroutine)", sec)
+                if not m:
+                    continue
+                st = [(fn, path) for fn, path in re.findall(r"^\s+(\S+)\(\)\n\s+(\S+):\d+", sec, re.M) if not fn.startswith("runtime.")]
+                if not st:
+                    st = [(fn, path) for fn, path in created.get(m.group(1) or "", []) if not fn.startswith("runtime.")]
+                if st:
+                    owners.append(st[0])
+            in_lib = [fn for fn, path in owners if "/verif/harness" not in path and "/harness/" not in path]
+            (lib if in_lib or not owners else other).append({"report": rep[:5000], "frames": ["%s %s" % (fn, os.path.basename(p)) for fn, p in frames][:12],
+                                                             "owners": ["%s %s" % (fn, os.path.basename(p)) for fn, p in owners]})
     return lib, other
 
 
 def sig_of(report):
-    fr = [f for f in report["frames"] if "verifharness" not in f]
+    fr = [f for f in report.get("owners", []) + report["frames"] if "verifharness" not in f and not f.startswith("runtime.")]
     return "c20:race:" + (fr[0].split(" ")[0].split("/")[-1] if fr else "unknown")
 
 
@@ -73,8 +91,11 @@ def run(tier, seed):
         from props import grpccommon as g
         gb_cases = [{"name": "cs%d" % i, "mux": mux, "pair": "inproc", "tls": "", "launch": "cmd", "sequential": True, "ests": [], "fam": "close-during-send",
                      "close_during_send": d} for i, (mux, d) in enumerate([(False, "h2p"), (False, "p2h"), (True, "h2p"), (True, "p2h")])]
+        # (5) the owner of a server stops it at the moment the host's shutdown request does
+        gb_cases += [{"name": "sr%d" % i, "mux": i % 2 == 1, "pair": "inproc", "tls": "", "launch": "cmd", "sequential": True, "ests": [], "fam": "stop-race",
+                      "stop_race": True} for i in range(4 if tier == "quick" else 24)]
         obs_gb, crashes_gb = vlib.run_cases(b["drivers"], "TestGRPCBrokerCases", gb_cases, "c20gb", env={"VERIF_VPLUGIN": b["vplugin"], "VERIF_CASE_TIMEOUT_S": "60"},
-                                            shards=len(gb_cases), serial=True, timeout=600)
+                                            shards=min(len(gb_cases), 8), serial=True, timeout=600)
     finally:
         if old_env is None:
             os.environ.pop("GORACE", None)
